@@ -317,6 +317,58 @@ def mergeSpec (o b m : Kids) : Bool :=
   && (leavesKids m).all (fun pv => valEq (leafAt pv.1 (.node o)) pv.2
         || (untouched pv.1 o && valEq (leafAt pv.1 (.node b)) pv.2))
 
+/-! ## texts that are not valid Unicode
+
+A Python `str` is a sequence of code points and may hold *lone surrogates* (U+D800..U+DFFF): the JSON and YAML decoders make them of
+escapes like `"\ud800"`, and a byte of a command-line argument or of an environment variable that is not UTF-8 arrives as U+DC80..U+DCFF
+(PEP 383, `surrogateescape`). Such a text can neither be written to a generated file nor be used in a file name
+(`UnicodeEncodeError`), so `API.configure` refuses it (`require_encodable_text`) — in the dictionary that is handed to validation,
+i.e. in the key-wise merge of the options into the file, whichever of the two delivered it.
+
+A Lean `Char` is a Unicode scalar value and cannot be a surrogate. Representation (the harness maps forth and back, and never uses
+these private-use characters itself): the lone surrogate U+D800+i is the private-use character U+E000+i. -/
+
+def loneSurrogate (c : Char) : Bool := decide (0xE000 ≤ c.toNat) && decide (c.toNat ≤ 0xE7FF)
+
+/-- `s.encode("utf-8")` does not raise -/
+def encodableChars : List Char → Bool
+  | [] => true
+  | c :: cs => !loneSurrogate c && encodableChars cs
+
+def encodableStr (s : String) : Bool := encodableChars s.toList
+
+def encodableStrs : List String → Bool
+  | [] => true
+  | s :: r => encodableStr s && encodableStrs r
+
+/-- (`.other`: a list with items that are no texts is carried as its JSON text, which holds every text of it) -/
+def encodableVal : Val → Bool
+  | .str s => encodableStr s
+  | .strs xs => encodableStrs xs
+  | .other r => encodableStr r
+  | _ => true
+
+mutual
+/-- `require_encodable_text(value)` does not raise: every key and every text at any depth is valid Unicode -/
+def encodable : Tree → Bool
+  | .leaf v => encodableVal v
+  | .node ks => encodableKids ks
+def encodableKids : Kids → Bool
+  | [] => true
+  | (k, t) :: r => encodableStr k && encodable t && encodableKids r
+end
+
+mutual
+/-- the configuration keys `require_encodable_text` can name, in document order (it raises at the first): a key that is not valid
+Unicode is named by the path of the dictionary that holds it, a text (also an item of a list) by its own path -/
+def badKeysTree (path : List String) : Tree → List (List String)
+  | .leaf v => if encodableVal v then [] else [path]
+  | .node ks => badKeysKids path ks
+def badKeysKids (path : List String) : Kids → List (List String)
+  | [] => []
+  | (k, t) :: r => (if encodableStr k then [] else [path]) ++ badKeysTree (path ++ [k]) t ++ badKeysKids path r
+end
+
 /-! ## `API.configure` as a decision table -/
 
 inductive Suffix | yaml | yml | json | toml | unknown
@@ -349,12 +401,14 @@ def Outcome.isCrash {α} : Outcome α → Bool
   | .crash _ => true
   | _ => false
 
-/-- verdict of pydantic on the merged tree (parameter of the model): accepted, refused with a `ValidationError` -/
+/-- verdict of pydantic on the merged tree (parameter of the model): accepted (and every text of the validated settings — which
+also hold what the environment and the `.env` file added — is valid Unicode), refused with a `ValidationError` -/
 abbrev Validate := Kids → Bool
 
 /-- `API.configure(path, options)`; `env`/`dotenv`: what pydantic-settings adds beneath the explicit input -/
 def configure (validate : Validate) (env dotenv : Kids) (file : FileState) (options : Kids) : Outcome Kids :=
   let finish (explicit : Kids) : Outcome Kids :=
+    if !encodableKids explicit then .app 141 else     -- `require_encodable_text(config_dict)`: after `combine_into(options, config_dict)`
     let eff := effective explicit env dotenv
     if validate eff then .ok eff else .app 141
   match file with
@@ -367,6 +421,12 @@ def configure (validate : Validate) (env dotenv : Kids) (file : FileState) (opti
   | .present _ .nonMapping => .app 141
   | .present _ .nonStringTopKey => .crash "model_validate: keywords must be strings"
   | .present _ (.mapping b) => finish (combine options b)
+
+/-- the dictionary that `require_encodable_text` and then validation see (`none`: the call ends before) -/
+def explicitOf : FileState → Kids → Option Kids
+  | .absent, o => if o.isEmpty then none else some (combine o [])
+  | .present sfx (.mapping b), o => if sfx = .unknown then none else some (combine o b)
+  | _, _ => none
 
 /-! ## target readiness -/
 
